@@ -209,7 +209,9 @@ Lookup(cfg, h) == LookupWith(cfg, h, LAMBDA x : TableLookup(cfg, x))
 \* a function  key text -> [c: credentials, from: set of URL keys it was derived from].
 \* (Go may or may not visit entries added during the walk; visiting one changes nothing:
 \* a host holds no "//".)
-Perms(n) == {p \in [1..n -> 1..n] : \A i, j \in 1..n : p[i] = p[j] => i = j}
+PermsDirect(n) == {p \in [1..n -> 1..n] : \A i, j \in 1..n : p[i] = p[j] => i = j}
+PermsSmall == [n \in 0..5 |-> PermsDirect(n)]      \* (a constant: TLC evaluates it once)
+Perms(n) == IF n <= 5 THEN PermsSmall[n] ELSE PermsDirect(n)
 Table0(cfg) == [k \in {cfg.auths[i].key : i \in Idx(cfg)} |->
                   [c |-> Cred(cfg.auths[CHOOSE i \in Idx(cfg) : cfg.auths[i].key = k]), from |-> {}]]
 RECURSIVE Build(_, _, _, _)
@@ -223,6 +225,8 @@ Build(cfg, t, p, n) ==
                    new == [base EXCEPT !.from = @ \cup {k}]
                IN Build(cfg, [x \in DOMAIN t \cup {h} |-> IF x = h THEN new ELSE t[x]], p, n + 1)
 BuildTable(cfg, p) == Build(cfg, Table0(cfg), p, 1)
+\* all tables a decode of cfg can produce
+Tables(cfg) == LET t0 == Table0(cfg) IN {Build(cfg, t0, p, 1) : p \in Perms(Len(cfg.auths))}
 
 TableLookupOp(t, h) == IF h \in DOMAIN t THEN Judge(t[h].c, Cardinality(t[h].from)) ELSE ZeroRes
 LookupOp(cfg, t, h) == LookupWith(cfg, h, LAMBDA x : TableLookupOp(t, x))
@@ -239,7 +243,7 @@ NoQuery == [set |-> FALSE, host |-> E, res |-> WithCalls(ZeroRes, <<>>)]
 AInit(Configs) == cfg \in Configs /\ loaded = FALSE /\ tbl = <<>> /\ last = NoQuery
 LoadAct ==
   /\ ~loaded /\ LoadOk(cfg)
-  /\ \E p \in Perms(Len(cfg.auths)) : tbl' = BuildTable(cfg, p)
+  /\ tbl' \in Tables(cfg)
   /\ loaded' = TRUE
   /\ UNCHANGED <<cfg, last>>
 QueryAct(h) ==
@@ -281,7 +285,7 @@ CollisionFails(Hosts) ==
     (Cardinality(DerivedIdx(cfg, h)) > 1 /\ ExplicitIdx(cfg, h) = {}) =>
         /\ ~TableLookup(cfg, h).ok
         /\ (~AmbiguityFirst => TableLookup(cfg, h).kind = "multiple")
-        /\ \A p \in Perms(Len(cfg.auths)) : LoadOk(cfg) => ~TableLookupOp(BuildTable(cfg, p), h).ok
+        /\ LoadOk(cfg) => \A t \in Tables(cfg) : ~TableLookupOp(t, h).ok
 
 \* base64(user ":" password) decodes to exactly user and password.
 AuthDecodesExactly(Users, Passes) ==
